@@ -590,7 +590,7 @@ func genQuery(w *bufio.Writer, tier string, r *rng) {
 	for _, s := range queryCases {
 		emit(s)
 	}
-	nvalid, nmut, nsoup := 60000, 40000, 12000
+	nvalid, nmut, nsoup := 32000, 22000, 6000 // ~120 k requests: the Lean driver needs ~45 s for them
 	if tier == "thorough" {
 		nvalid, nmut, nsoup = 600000, 400000, 120000
 	}
